@@ -2,7 +2,7 @@ import Spine.Heap
 open Spine Spine.Heap
 /-! Line protocol for the store / sharing model (C04, C11). One op per line, one answer per line.
 
-    cfg <fastpathRemote> <mergeStrict> <selNilPanics> <emptySelPanics> <inplaceAltersFlag>   (0/1 each)  -> ok
+    cfg <fastpathRemote> <mergeStrict> <selNilPanics> <emptySelPanics> <inplaceAltersFlag> <deleteStrict> <fastpathAdopts>   (0/1 each)  -> ok
     shape <n> <keys> <flag> <selMap> <elN> <elMap>                                       -> ok
         keys   = `-` or `idx:kind,...` (kind u|s|t = uint, string, struct)
         flag   = `-` or index
@@ -46,10 +46,12 @@ structure St where
 
 def step (st : St) (line : String) : St × String :=
   match line.trimAscii.toString.splitOn " " with
-  | ["cfg", a, b, c, d, e] => match parseBool a, parseBool b, parseBool c, parseBool d, parseBool e with
-    | some a, some b, some c, some d, some e =>
-      ({ st with cfg := { fastpathRemote := a, u := { mergeStrict := b, selNilPanics := c, emptySelPanics := d, inplaceAltersFlag := e } } }, "ok")
-    | _, _, _, _, _ => (st, "bad-op")
+  | ["cfg", a, b, c, d, e, g, k] =>
+    match parseBool a, parseBool b, parseBool c, parseBool d, parseBool e, parseBool g, parseBool k with
+    | some a, some b, some c, some d, some e, some g, some k =>
+      ({ st with cfg := { fastpathRemote := a, fastpathAdopts := k,
+                          u := { mergeStrict := b, selNilPanics := c, emptySelPanics := d, inplaceAltersFlag := e, deleteStrict := g } } }, "ok")
+    | _, _, _, _, _, _, _ => (st, "bad-op")
   | ["shape", n, keys, flag, selMap, elN, elMap] => match n.toNat?, parseKeys keys, elN.toNat? with
     | some n, some keys, some elN =>
       ({ st with sh := { n := n, keys := keys, flag := parseOpt flag, selMap := parseMap selMap, elN := elN, elMap := parseMap elMap } }, "ok")
